@@ -103,6 +103,36 @@ pub fn c02_s1_observe_vs_collect() {
     vcover!(true, "end of harness reached");
 }
 
+/// S1 (quick form): T1 observe(1.0) ‖ T2 collect, 1 bucket with bound 1.0: the observed value is
+/// fixed (on the bucket bound), the schedule is symbolic.
+#[cfg_attr(kani, kani::proof, kani::unwind(6))]
+pub fn c02_s1_fixed_value_observe_vs_collect() {
+    let h = hist(vec![1.0]);
+    register(&h, 8);
+    let a = 1.0;
+    vs::begin_threads();
+    vs::start_thread();
+    vs::sched_point();
+    let t1_b = vs::round();
+    h.core.observe(a);
+    let t1_e = vs::round();
+    vs::start_thread();
+    let s = collect(&h);
+    let fails = vs::cas_fails(2);
+    vs::assume_consistent();
+    let empty = describes(&s, &[a], &[false], 1.0, f64::NAN);
+    let full = describes(&s, &[a], &[true], 1.0, f64::NAN);
+    assert!(empty || full, "C02 snapshot describes one set of observations (count, sum and buckets agree)");
+    if before(t1_e, 1, s.rb, 2) { assert!(full, "C02 snapshot contains every observation completed before the collection started"); }
+    if before(s.re, 2, t1_b, 1) { assert!(empty, "C02 snapshot excludes every observation started after the collection returned"); }
+    assert!(h.get_sample_count() == 1, "C03 nothing is lost: the total count includes the observation");
+    vcover!(empty && !before(s.re, 2, t1_b, 1), "c02.s1: collector missed the in-flight observation");
+    vcover!(full && !before(t1_e, 1, s.rb, 2), "c02.s1: collector included an overlapping observation");
+    vcover!(fails > 0, "c02.s1: collector had to wait for the in-flight observation");
+    std::mem::forget(h);
+    vcover!(true, "end of harness reached");
+}
+
 /// S2: T1 observe(a); observe(b) ‖ T2 collect: never the later observation without the earlier.
 #[cfg_attr(kani, kani::proof, kani::unwind(6))]
 pub fn c02_s2_two_observes_prefix_closed() {
@@ -413,6 +443,7 @@ pub fn c03_batch_flush_three_collects() {
 pub fn dispatch(name: &str) -> Option<fn()> {
     Some(match name {
         "c02_s1_observe_vs_collect" => c02_s1_observe_vs_collect,
+        "c02_s1_fixed_value_observe_vs_collect" => c02_s1_fixed_value_observe_vs_collect,
         "c02_s2_two_observes_prefix_closed" => c02_s2_two_observes_prefix_closed,
         "c02_s3_two_observers_vs_collect" => c02_s3_two_observers_vs_collect,
         "c02_s4_two_collectors" => c02_s4_two_collectors,
